@@ -41,3 +41,16 @@ func H_Dev_Merge() {
 	}
 	vx.Observe("patch", p)
 }
+
+func H_Dev_NullMerge() {
+	var err error
+	var out []byte
+	p := vx.CatchPanic(func() { out, err = jsonpatch.MergePatch([]byte("null"), []byte("[1]")) })
+	if p {
+		vx.ObserveStr("panic", vx.PanicMsg())
+	}
+	vx.Observe("out", out)
+	if err != nil {
+		vx.ObserveStr("err", err.Error())
+	}
+}
